@@ -99,7 +99,7 @@ def run(chk, repo):
     df = repo.find(LA, "dft")
     par = [a.arg for a in df.args.args]
     chk.require(par == ["blk", "freqs", "normalize"], "dft signature changed: %s" % par)
-    gens = [n for n in ast.walk(df) if isinstance(n, ast.GeneratorExp)]
+    gens = [n for n in ast.walk(df) if isinstance(n, (ast.GeneratorExp, ast.ListComp))]
     outer = [g for g in gens if unparse(g.generators[0].iter) == "freqs"]
     chk.require(len(outer) == 1, "dft: generator over freqs not found")
     f = unparse(outer[0].generators[0].target)
@@ -130,15 +130,36 @@ def run(chk, repo):
                    "freq_response", node=df)
     ni = [s for s in docstring_free(df.body) if isinstance(s, ast.If) and unparse(s.test) == "normalize"]
     ok = len(ni) == 1
+    detail = ""
     if ok:
-        tb = ni[0].body
-        ok = unparse(tb[0]) == "lblk = len(blk)" and isinstance(tb[1], ast.Return) \
-            and isinstance(tb[1].value, ast.ListComp) and _safe(lambda: Evaluator().ev(tb[1].value.elt)) is not None \
-            and Evaluator().ev(tb[1].value.elt) == RF.sym(unparse(tb[1].value.generators[0].target)) / RF.sym("lblk")
-    chk.decide(ok, "C12.dft", WA("dft"), short(ni[0]) if ni else "normalisation missing",
-               why="normalised form divides every bin by len(blk)", node=df)
+        env = {}
+        ret = None
+        for st in ni[0].body:
+            if isinstance(st, ast.Assign) and isinstance(st.targets[0], ast.Name):
+                env[st.targets[0].id] = st.value
+            elif isinstance(st, ast.Return):
+                ret = st
+        ok = ret is not None and isinstance(ret.value, (ast.ListComp, ast.GeneratorExp))
+        if ok:
+            lc = ret.value
+            v = unparse(lc.generators[0].target)
+            e = lc.elt
+            ok = isinstance(e, ast.BinOp) and isinstance(e.op, ast.Div) and unparse(e.left) == v
+            if ok:
+                den = e.right
+                if isinstance(den, ast.Name) and den.id in env:
+                    den = env[den.id]
+                detail = "bins divided by " + unparse(den)
+                ok = unparse(den) == "len(blk)"
+    chk.decide(ok, "C12.dft", WA("dft"), (detail or (short(ni[0]) if ni else "normalisation missing")),
+               why="the normalised form divides every bin by the block length len(blk) (so the DC bin is the block "
+                   "mean), not by anything else", node=df)
     last = docstring_free(df.body)[-1]
-    chk.decide(isinstance(last, ast.Return) and unparse(last.value) in ("list(dft_data)",), "C12.dft", WA("dft"),
+    dd = [s for s in docstring_free(df.body) if isinstance(s, ast.Assign) and outer and s.value is outer[0]]
+    okl = isinstance(last, ast.Return) and dd and (
+        unparse(last.value) == "list(%s)" % unparse(dd[0].targets[0]) or
+        (unparse(last.value) == unparse(dd[0].targets[0]) and isinstance(outer[0], ast.ListComp)))
+    chk.decide(bool(okl), "C12.dft", WA("dft"),
                short(last), why="unnormalised form returns the sums themselves", node=last)
     d = df.args.defaults
     chk.decide(len(d) == 1 and unparse(d[0]) == "True", "C12.dft", WA("dft"), "normalize defaults to True",
